@@ -43,7 +43,7 @@ def mon_c02(cfg, eff, recs):
     """evaluated only when the result is in neither the memory cache nor the attached archive;
     at most one evaluation per call; with a lossless archive attached throughout: once per key"""
     hits = []
-    lossless = cfg['backend'] in ('dictarch', 'file', 'dir', 'sql')
+    lossless = cfg['backend'] in ('dictarch', 'file', 'file-json', 'dir', 'sql')
     evals = {}
     raising = set(cfg.get('raising', []))
     for i, r in enumerate(recs):
